@@ -48,25 +48,23 @@ def cycleSkeletons : List (String × List String) := [
     "for($1<-references.get(v).into_iter().flatten())",
     "if(!state.vertices.contains_key($1))",
     "strongly_connect(references,state,*$1)",
-    "$2=state.vertices[$1].lowlink",
-    "state.update_lowlink(v,$2)",
+    "state.update_lowlink(v,state.vertices[$1].lowlink)",
     "else",
     "if(state.stack.contains($1))",
-    "$3=state.vertices[$1].index",
-    "state.update_lowlink(v,$3)",
+    "state.update_lowlink(v,state.vertices[$1].index)",
     "end",
     "end",
     "end",
-    "$4=state.vertices[v]",
-    "if($4.index==$4.lowlink)",
-    "$5=Vec::new()",
-    "while(letSome($6)=state.stack.pop())",
-    "$5.push($6)",
-    "if($6==v)",
+    "$2=state.vertices[v]",
+    "if($2.index==$2.lowlink)",
+    "$3=Vec::new()",
+    "while(letSome($4)=state.stack.pop())",
+    "$3.push($4)",
+    "if(v==$4)",
     "break",
     "end",
     "end",
-    "state.components.push($5)",
+    "state.components.push($3)",
     "end"
   ]),
   ("update_lowlink", [
